@@ -55,6 +55,22 @@ CLAIMED = {
             "deterministic simulation: same world and argv run in 2-6 simulated processes differing in hash seed, glob enumeration order, read/write chunking, EINTR and clock; outputs compared byte for byte",
             "The property is schedule independence, and the simulator owns every schedule okane depends on: per-process hash keys (content-hashed interned strings + seeded SipHash for every HashMap/HashSet in okane), glob enumeration order, stream chunking with short reads/writes and EINTR, and the calendar date. Each seeded world (accepted and failing ledgers, multi-commodity accounts, price diamonds, include trees) is run with 2-6 commands in 2-6 processes; stdout bytes, success/failure and the rendered error chain must be identical.",
             "Hash maps inside dependencies keep RandomState (their order never reaches output). Simulated orders are a subset of what production can produce."),
+    "C15": ("exploration",
+            "deterministic simulation: seeded CSV and camt.053 statements with hostile text, imported by 2-3 simulated processes differing in hash seed and in the chunking of the YAML / statement streams (short writes and EINTR on stdout for the shipped command); printed output parsed back with okane's parser and compared with the built trees",
+            "Statements under drawn importer configurations whose payee, note, category and party names carry text the ledger syntax is sensitive to (';', leading '(' '*' '!', two spaces, tab, line break inside a quoted field, fake posting lines and transaction headers, surrounding spaces, quotes, commas, '=' '@', full-width text, empty) are imported through the library path and the shipped command in several simulated processes; all must print identical bytes. The output is parsed with okane's own parser and compared field by field with the tree Txn::to_double_entry built (numbers by value; printed scale between the value's own and the configured precision); appending to a ledger must grow the entry count by exactly the record count.",
+            "Weak-to-medium simulation contribution (stream schedules, hash seed). Viseca is not covered. Three known findings (payee with ';', payee starting with '(', note read back as metadata) are listed in known_findings.json."),
+    "C16": ("exploration",
+            "deterministic simulation with fault injection: a model bank account emits consecutive CSV statements under a drawn configuration; every imported row compared with the model; the import -> append -> book-keeping pipeline under exactly-once, duplicated, lost and reordered deliveries judged by the reference model",
+            "A model bank account produces 1-3 consecutive CSV statements (column layout by index / label / template, delimiter, skipped head lines, date formats, amount or credit/debit columns, optional balance, commodity, rate / quantity / symbol, category, note and fee columns, either row order, asset or liability; conversion specs as document default or by rewrite rule: extract / compute, price_of_primary / price_of_secondary, commodity override, disabled). Each row's transaction (account posting, counter posting or secondary amount, the stated rate on every posting in the commodity it prices, fee postings, assertion, order, oldest first) is compared with the model in 2-3 simulated processes with chunked streams. Then funding + the printed output of the deliveries (exactly once in order; one statement duplicated, lost, or two swapped) is book-kept by okane and by the reference model built from the expected transactions: same verdict, same final balance, and the statement's last balance for an asset account delivered exactly once.",
+            "Weak-to-medium simulation contribution: the pipeline through a durable file and the delivery faults. Liability accounts with a balance column are not put through the pipeline."),
+    "C17": ("exploration",
+            "deterministic simulation: layered configuration documents and rewrite rules (CSV and camt.053, multi-field elements) resolved by 2-4 simulated processes with different hash seeds and chunked YAML streams; select() compared with the statement's merge, every record's payee / code / counter-account / pending mark with the model's fold",
+            "1-6 configuration documents in shuffled order whose paths are (or are not) substrings of the statement's path, the shortest carrying the required settings, later ones overriding scalars and appending rules. ConfigSet::select on the multi-document stream must equal select on the single document the statement's merge produces. Rewrite rules (case-insensitive regexes, named groups payee / code, OR-lists, AND-elements of 1-3 fields, payee overrides, pending flags, several account-assigning rules per record) are folded over CSV records and, in a third of the runs, over camt.053 entries where every regex field captures; payee, code, counter-account (Income:/Expenses:Unknown when none) and pending mark must equal the model's fold in every simulated process.",
+            "Documents with equally long paths, and two fields of one element capturing different text for the same group, are DONT_CARE (the latter still has to be the same in every process: C13)."),
+    "C18": ("exploration",
+            "deterministic simulation with fault injection: a model bank account emits consecutive consistent camt.053 statements; imported transactions compared with the model in 2-4 simulated processes (hash seed, chunked XML/YAML); funding + printed output of exactly-once / duplicated / lost / reordered deliveries book-kept by okane and by the reference model",
+            "1-3 consecutive consistent single-currency camt.053 statements (opening/closing balance of either sign, 0-8 entries: credits and debits, no details / one detail / batches summing to the entry, charges included in the amount, value date absent / equal / different from the booking date as Dt or DtTm, domain or proprietary bank transaction codes, inline or nested parties, either row_order). Every imported transaction is compared with the model (opening-balance transaction first, one per entry or detail, sign, value date with booking date as effective date, reference as code, fee posting, opening assertion on the first and closing assertion on the last). Then funding + the printed output of the deliveries is book-kept by okane and by the reference model: same verdict, same final balance, the closing balance after an exactly-once delivery.",
+            "Weak-to-medium simulation contribution (pipeline and delivery faults). The date of the opening-balance transaction, charges not included in the amount, multi-currency details and several statements per file are outside the generator."),
     "C20": ("fault_enumeration",
             "deterministic simulation with fault injection: Golden::new / Golden::assert against a simulated file and environment; the matrix UPDATE_GOLDEN x file state x fault (read error, write refused, torn write) x environment flip x third-party edit is enumerated cell by cell, contents are seeded, cycles share one durable file; outcomes compared with a reference model of the statement",
             "okane_golden::Golden runs against a simulated golden file and environment through the seam in golden/src/verif.rs. The run index selects one of the 192 cells of UPDATE_GOLDEN in {unset, '', '1', '0'} x file {absent, present} x fault {none, read error, write refused at open, write torn after k bytes} x environment flipped between new and assert x third party {nothing, edit, remove} for the first new/assert cycle, so every cell is visited equally often; contents and `got` are seeded; further drawn cycles reuse the file earlier ones wrote. Oracle = the statement: assert returns iff got equals the content with CRLF normalised; zero write calls and an unchanged file whenever UPDATE_GOLDEN is unset or empty at the call; new on an absent file fails unless updating; after a successful update the file holds exactly got; a failed update must panic.",
